@@ -42,6 +42,9 @@ pub fn install_panic_recorder() {
         } else {
             "<non-string panic payload>".to_string()
         };
+        // also on stderr (captured per case): if the panic cannot unwind (e.g. native JIT frames on
+        // the stack) the process aborts and this line is the only trace of where it started
+        eprintln!("VHPANIC {} | {}", norm_loc(&loc), msg.chars().take(160).collect::<String>());
         let mut g = LAST_PANIC.lock().unwrap_or_else(|p| p.into_inner());
         g.push((loc, msg));
     }));
